@@ -22,7 +22,9 @@ def generate(rng, tier):
     n = 300 if tier == "quick" else 6000
     for exp in "vtw":
         for i in range(n):
-            user = cred(rng); U = pyref.normalize(user).encode()
+            user = cred(rng)
+            if rng.random() < 0.1: user = (cred(rng, 1, 12) + rng.choice([" ", "  ", " ."]))[:16]
+            U = pyref.normalize(user).encode()
             K = rbytes(rng, 40)
             cseed = rng.choice(SEEDS) if rng.random() < 0.4 else rng.getrandbits(32)
             sseed = cseed if rng.random() < 0.1 else (rng.choice(SEEDS) if rng.random() < 0.4 else rng.getrandbits(32))
@@ -42,6 +44,8 @@ def generate(rng, tier):
             elif r < 0.3: kind = "key-bit-flip"; sK = flip(K, rng.randrange(320))
             elif r < 0.4:
                 kind = "other-name"; su = cred(rng)
+                if rng.random() < 0.5:   # names that differ only in trailing / leading blanks or punctuation
+                    su = rng.choice([user.rstrip(" "), user + " " if len(user) < 16 else user[:-1], user.strip(), " " + user if len(user) < 16 else user[1:]]) or "x"
                 if pyref.normalize(su) == pyref.normalize(user): kind = "accept"
             elif r < 0.5: kind = "client-seed-bit-flip"; scs = cseed ^ (1 << rng.randrange(32))
             elif r < 0.6: kind = "server-seed-bit-flip"; sss = sseed ^ (1 << rng.randrange(32))
